@@ -52,7 +52,8 @@ VERIF = os.path.dirname(os.path.dirname(os.path.dirname(os.path.abspath(__file__
 def env_for():
     repo = os.environ.get("VERIF_REPO", "/repo")
     e = dict(os.environ)
-    e.update(PYTHONPATH="%s/src:%s" % (repo, VERIF), OMP_NUM_THREADS="1", MKL_NUM_THREADS="1", PYTHONHASHSEED="0", PYTHONDONTWRITEBYTECODE="1")
+    e.update(PYTHONPATH="%s/src:%s" % (repo, VERIF), OMP_NUM_THREADS="1", MKL_NUM_THREADS="1", PYTHONDONTWRITEBYTECODE="1")
+    e.pop("PYTHONHASHSEED", None)  # the tool's processes run as a user's would: str hashes are salted per process
     return e
 
 
@@ -327,7 +328,12 @@ def run_case(case, rec):
                     if fired2:
                         rec.count("two_fault_sequences")
                         fault += " + SIGKILL at event %d of the resumed run" % K2
+                        before = list(listed)
                         listed = chk.after_fault(work, fault, None)
+                        lost = [u for u in before if u not in listed]
+                        if lost:
+                            chk.v("utterances %r were listed in the manifest before the resumed run was killed and are gone afterwards (%s)" % (lost, fault), check="I2_progress_lost",
+                                  fault=fault, manifest=listed)
                 chk.resume(d, work, listed, fault, f.get("resume_workers", 0), trace=bool(f.get("trace")))
                 if 0 < done and len(listed) < U:
                     rec.nt((scn["idx"], "stmt", K, f["sig"], f.get("second"), f.get("workers", 0)))
@@ -426,8 +432,12 @@ def plan(tier, seed):
                 ks = ks[:6] + ks[len(ks) // 2 - 2: len(ks) // 2 + 2] + ks[-6:]
             for k in ks:
                 faults.append({"mech": "write", "utt": utt, "k": k, "tag": "w%s%d" % (utt.strip("@"), k)})
+        rng = rng_for(seed, "C10", si, 5)
+        if q:
+            # a few two-fault sequences: first fault after at least one manifest line, second early in the resumed run
+            for K in (n // 2, n - 3):
+                faults.append({"mech": "stmt", "K": K, "sig": "SIGKILL", "second": int(rng.integers(1, 4)), "tag": "d%d" % K})
         if not q:
-            rng = rng_for(seed, "C10", si, 5)
             for K in range(2, n, 2):
                 faults.append({"mech": "stmt", "K": K, "sig": "SIGKILL", "second": int(rng.integers(1, max(2, n // 2))), "tag": "d%d" % K})
             for w in (1, 2, 3):
@@ -452,7 +462,7 @@ def run_shard(spec, rec):
 
 
 def finish(rec):
-    for k in ("faults_stmt_SIGKILL", "faults_stmt_SIGINT", "faults_write_feature_file", "faults_write_manifest", "resumes", "worker_count_runs", "fault_before_save",
+    for k in ("faults_stmt_SIGKILL", "faults_stmt_SIGINT", "faults_write_feature_file", "faults_write_manifest", "resumes", "worker_count_runs", "two_fault_sequences", "fault_before_save",
               "fault_before_manifest", "fault_before_loop"):
         if not rec.counters[k]:
             rec.inconc("fault class %s never exercised" % k)
